@@ -199,8 +199,8 @@ PROPS["C08"] = {
 PROPS["C16"] = {
     "harness": "netsim", "test": "TestC16", "quick_s": 40, "thorough_s": 900, "batch": 40, "cpu": 4, "workers": 8,
     "rule": "one evaluation = one exchange through a real net/http server, forward.StateListener and forward.New to a scripted byte-level backend on the simulated transport: backend status 200-599, header sets, bodies 0 B-300 KiB (MiB in the thorough tier), fixed length or chunked with drawn chunk sizes; "
-            "in two thirds of the exchanges one fault: dial refused, dial timeout, close/reset with 0 bytes sent, close/reset at a drawn byte of the head, garbage head, close/reset at a drawn byte of the body stream, response-header timeout (stalled backend), client gone while the backend is silent, client gone mid-body; "
-            "oracle = outcome class per fault (exact relay, 502, 504, 502|504, 502|500, 499 recorded, strict prefix + broken connection), no hang, no handler panic reaching the server, exactly one connected and one disconnected notification; non-trivial = a fault or a non-empty body; distinct = hash of (status, size, fault, position)",
+            "in two thirds of the exchanges one fault: dial refused, dial timeout, close/reset with 0 bytes sent, close/reset at a drawn byte of the head, garbage head, close/reset at a drawn byte of the body stream, response-header timeout (stalled backend), client gone while the backend is silent, client gone mid-body, deadline on the request context; GET or POST (fixed length or chunked request body); for fault-free POSTs with a large response the order of the transport's last read of the request body and the start of the response is imposed either way (fault kind request-probe-after-response-start); request targets in authority form, absolute form and //path are judged by the last clause only; "
+            "oracle = outcome class per fault (exact relay, 502, 504, 502|504, 502|500, 499 recorded, strict prefix + broken connection), no hang, no handler panic reaching the server, exactly one connected and one disconnected notification, both for one URL; non-trivial = a fault or a non-empty body; distinct = hash of (status, size, fault, position)",
     "technique": "deterministic simulation of the two connections of a reverse proxy: seeded backend responses with connection faults injected at drawn byte offsets of the response stream, dial faults and client departures; outcome-class and notification-pairing oracle",
     "level_text": "seeded search over responses and fault positions; fault kinds enumerated, positions sampled; not exhaustive",
     "level_note": NET_NOTE,
